@@ -317,6 +317,8 @@ def check_case(case):
     shutil.rmtree(d, ignore_errors=True)
     if case.get("pindex") == 0 and "problem" in case.get("tags", []):
         numeric_goals_only(r, case)
+        if not r.fails:
+            shared_items_in_other_orders(r, case)
     return r
 
 
@@ -354,4 +356,58 @@ def numeric_goals_only(r, case):
         r.fail("problem-roundtrip", f"numeric-goals-only team: the exported combined problem parses back with goals "
                f"{re_ if isinstance(re_, Raised) else re_['numgoals']}, expected {want}; exported text:\n{str(text)[:600]}", want,
                str(re_)[:200], tags=["numeric-goals-only"])
+    shutil.rmtree(d, ignore_errors=True)
+
+
+def shared_items_in_other_orders(r, case):
+    """two agents share four goal literals and four initial facts; one file lists them in a fixed order (with a private
+    goal in between), the other in EVERY permutation, in both roles: the combination holds each of them exactly once"""
+    from itertools import permutations as _perms
+    from pddl_plus_parser.multi_agent import MultiAgentDomainsConverter, MultiAgentProblemsConverter
+    from pddl_plus_parser.exporters import ProblemExporter
+    d = pathlib.Path(scratch_dir()) / f"c17_so_{os.getpid()}"
+    shutil.rmtree(d, ignore_errors=True)
+    d.mkdir()
+    where = {k: (0, 1) for k in list(PRED) + list(FUNC) + list(CONST) + list(ACT)}
+    for ag in range(2):
+        (d / f"domain-ag{ag}.pddl").write_text(domain_file(where, ag))
+    out = d / "out"
+    out.mkdir()
+    path = guard(lambda: MultiAgentDomainsConverter(d).export_combined_domain(add_dummy_actions=False, output_folder=out))
+    if isinstance(path, Raised):
+        r.fail("domain-union", f"shared-items team: combining the domains raised {path}", "combined", str(path), tags=["shared-orders"])
+        shutil.rmtree(d, ignore_errors=True)
+        return
+    shared = ["(p o1)", "(p o2)", "(q o1 o2)", "(r)"]
+    private = "(s0 o2)"
+    fixed = shared[:2] + [private] + shared[2:]
+    want = sorted([("p", "o1"), ("p", "o2"), ("q", "o1", "o2"), ("r",), ("s0", "o2")])
+    for perm in _perms(shared):
+        for fixed_agent in (0, 1):
+            lists = {fixed_agent: fixed, 1 - fixed_agent: list(perm)}
+            for ag in range(2):
+                items = " ".join(lists[ag])
+                (d / f"prob-ag{ag}.pddl").write_text(
+                    f"(define (problem madp) (:domain mad)\n(:objects o1 - t1 o2 - t2)\n(:init {items} (= (f) 5))\n"
+                    f"(:goal (and {items})))\n")
+            prob = guard(lambda: MultiAgentProblemsConverter(d, "prob").combine_problems(path))
+            ob = guard(observe_problem, prob) if not isinstance(prob, Raised) else prob
+            r.count("transitions")
+            r.count("states")
+            label = f"shared-items team: agent {fixed_agent} lists {' '.join(fixed)}, the other {' '.join(perm)} (init and goal)"
+            if isinstance(ob, Raised) or sorted(map(tuple, ob["goals"])) != want or sorted(map(tuple, ob["atoms"])) != want:
+                r.fail("problem-union", f"{label}: combined goals {ob if isinstance(ob, Raised) else sorted(ob['goals'])}, facts "
+                       f"{'' if isinstance(ob, Raised) else sorted(ob['atoms'])}, expected each of {want} exactly once", want, str(ob)[:300],
+                       tags=["shared-orders"])
+                shutil.rmtree(d, ignore_errors=True)
+                return
+            text = guard(lambda: ProblemExporter().extract_problem(prob))
+            re_ = guard(lambda: observe_problem(parse_problem(text, parse_domain(open(path).read())))) if not isinstance(text, Raised) else text
+            r.count("transitions")
+            if isinstance(re_, Raised) or sorted(map(tuple, re_["goals"])) != want or sorted(map(tuple, re_["atoms"])) != want:
+                r.fail("problem-roundtrip", f"{label}: the exported combined problem parses back with goals "
+                       f"{re_ if isinstance(re_, Raised) else sorted(re_['goals'])}, expected {want}; exported text:\n{str(text)[:600]}",
+                       want, str(re_)[:200], tags=["shared-orders"])
+                shutil.rmtree(d, ignore_errors=True)
+                return
     shutil.rmtree(d, ignore_errors=True)
